@@ -351,8 +351,9 @@ func ruleUniqueID(c *core.Ctx, objects *types.Var) {
 			reserved[core.Canon(up.Key)] = true
 			continue
 		}
-		// the key was chosen by a helper that only returns identifiers it looked up and
-		// found free (index = s.pickIndex()), possibly handed on to the helper that stores
+		// the key as the caller sees it when the store sits in a private helper
+		// (reserve(index), settle(index, obj, err)); and a key chosen by a helper that only
+		// returns identifiers it looked up and found free (index = s.pickIndex())
 		key := core.Canon(up.Key)
 		if p, isParam := key.(*ssa.Parameter); isParam && isPrivateHelper(c, up.Parent()) {
 			all, _ := c.CallSites()
@@ -392,12 +393,12 @@ func ruleUniqueID(c *core.Ctx, objects *types.Var) {
 				}
 			}
 		}
-		if reserved[core.Canon(up.Key)] {
+		if reserved[core.Canon(up.Key)] || reserved[key] {
 			continue
 		}
 		again := false
 		for k := range reserved {
-			if core.SameValue(k, up.Key) {
+			if core.SameValue(k, up.Key) || core.SameValue(k, key) {
 				again = true
 			}
 		}
